@@ -26,7 +26,11 @@ class C12Combine(Scenario):
                     "steps": rng.between(3, self.max_steps), "universe": rng.choice((4, 8, 16)),
                     # sketch cells are signed: removals beyond what was added are part of the reachable states
                     # (net totals of 0 or below with non-zero counters); only used for the counter/total clauses
-                    "free_removes": kind == "cms" and rng.chance(1, 2)})
+                    "free_removes": kind == "cms" and rng.chance(1, 2),
+                    # every structure gets its own function object computing the run's hash strategy (a factory that
+                    # builds the strategy per filter); operands may be trivial user subclasses; a mismatched pair with
+                    # strategy objects of its own lives and dies before the run's structures are built
+                    "own_closures": rng.chance(1, 3), "subclass": rng.chance(1, 8), "recycle": rng.chance(1, 4)})
         return cfg
 
     def gen_step(self, rng):
@@ -50,29 +54,54 @@ class C12Combine(Scenario):
             # the element counter of a Bloom-family filter is caller-settable and, for results of set operations, only
             # an estimate (possibly 0 with cells set): the arrays must be combined regardless of it
             return {"op": "setcount", "to": side, "v": rng.choice((0, 0, 1, 5))}
-        return {"op": "combine", "order": rng.choice(("ab", "ba"))}
+        return {"op": "combine", "order": rng.choice(("ab", "ba")), "via_empty": rng.chance(1, 3)}
 
-    def make(self, disk=False):
+    def klass(self, name):
         import probables
 
+        base = getattr(probables, name)
+        if not self.cfg.get("subclass"):
+            return base
+        cache = self.__dict__.setdefault("_subs", {})
+        if name not in cache:
+            cache[name] = type("User" + name, (base,), {})
+            self.ctx.fault("user_subclass")
+        return cache[name]
+
+    def make(self, disk=False, hf=None):
         cfg = self.cfg
-        hf = self.env.hf
+        if hf is None:
+            hf = self.env.fresh_hf() if cfg.get("own_closures") else self.env.hf
         if cfg["kind"] == "cms":
-            return getattr(probables, cfg["cls"])(hash_function=hf, **cfg["sizing"])
+            return self.klass(cfg["cls"])(hash_function=hf, **cfg["sizing"])
         if cfg["kind"] == "counting":
-            return probables.CountingBloomFilter(cfg["est"], cfg["rate"], hash_function=hf)
+            return self.klass("CountingBloomFilter")(cfg["est"], cfg["rate"], hash_function=hf)
         if disk:
-            o = probables.BloomFilterOnDisk(self.env.scr.abspath("a", self.env.fresh_name("blm")), cfg["est"], cfg["rate"],
-                                            hash_function=hf)
+            o = self.klass("BloomFilterOnDisk")(self.env.scr.abspath("a", self.env.fresh_name("blm")), cfg["est"],
+                                                cfg["rate"], hash_function=hf)
             self.disk.append(o)
             return o
-        return probables.BloomFilter(cfg["est"], cfg["rate"], hash_function=hf)
+        return self.klass("BloomFilter")(cfg["est"], cfg["rate"], hash_function=hf)
+
+    def prior_life(self, h1, h2):
+        """two structures of this geometry with two DIFFERENT strategies: their union is refused (Bloom kinds)."""
+        d1, d2 = self.make(False, h1), self.make(False, h2)
+        for k in range(3):
+            d1.add(seams.key_of(k))
+            d2.add(seams.key_of(k + 1))
+        if self.cfg["kind"] != "cms":
+            d1.union(d2)
+            d2.union(d1)
+            d1.jaccard_index(d2)
 
     def setup(self, cfg):
         self.cfg = cfg
         self.n_gen = 0
         self.env = structs.Env(self.ctx, cfg, need_fs=cfg["kind"] == "bloom")
         self.disk = []
+        self.env.recycle(self.prior_life, n=2)
+        if cfg.get("own_closures") and self.env.closures():
+            self.ctx.fault("per_object_hash_closure")
         self.a = self.make(cfg["a_disk"])
         self.b = self.make(cfg["b_disk"])
         self.c = self.make(False)
@@ -141,22 +170,36 @@ class C12Combine(Scenario):
             ctx.fault("counter_set")
             return {"r": "ok"}
         if op == "combine":
-            return self.combine(step["order"])
+            return self.combine(step["order"], step.get("via_empty", False))
         raise HarnessError(op)
 
     def finish(self):
         self.combine("ab")
 
-    def combine(self, order):
+    def unchanged(self, objs, snaps, what, sig):
+        for name, o, snap in zip(("receiver", "argument"), objs, snaps):
+            if (self.array_of(o), o.elements_added) != snap:
+                raise Violation("operand_aliased", f"{what}: using the result afterwards changed the {name} "
+                                                   f"({type(o).__name__})", sig)
+
+    def combine(self, order, via_empty=False):
         ctx = self.ctx
         kind = self.cfg["kind"]
         x, y = (self.a, self.b) if order == "ab" else (self.b, self.a)
         sig = {"kind": kind, "class": type(x).__name__, "arg_class": type(y).__name__}
         want, want_total = self.array_of(self.c)
         probes = [seams.key_of(k) for k in range(self.cfg["universe"] + 3)]
+        snaps = [(self.array_of(o), o.elements_added) for o in (x, y)]
         if kind == "cms":
-            res = copy.deepcopy(x)
-            res.join(y)
+            if via_empty:
+                # a fresh sketch takes both operands by join
+                res = self.make(False)
+                res.join(x)
+                res.join(y)
+                ctx.fault("join_into_fresh")
+            else:
+                res = copy.deepcopy(x)
+                res.join(y)
             got, total = self.array_of(res)
             if got != want:
                 raise Violation("join_counters_differ", "counters of a.join(b) differ from the single-stream sketch", sig)
@@ -181,6 +224,14 @@ class C12Combine(Scenario):
             for key in probes:
                 if (x.check(key) or y.check(key)) and not res.check(key):
                     raise Violation("union_lost_key", f"key {key!r} is reported by an operand but not by the union", sig)
+        # the result is a structure of its own: using it must not reach back into the operands
+        self.unchanged((x, y), snaps, "combine", sig)
+        if kind == "bloom":
+            res.add(probes[-1])
+        else:
+            res.add(probes[-1], 3)
+            res.remove(probes[-1], 1)
+        self.unchanged((x, y), snaps, "add/remove on the combined structure", sig)
         ctx.fault("combine")
         if any(v for v in self.out["a"].values()) and any(v for v in self.out["b"].values()):
             ctx.nontrivial = True
